@@ -147,9 +147,13 @@ def main(argv=None):
     modname = "harness.%s" % prop
     mod = importlib.import_module(modname)
     levels = mod.levels(tier)
+    if tier == "thorough":
+        # the thorough tier starts with every quick level it does not redefine under the same name
+        names = set(l["name"] for l in levels)
+        levels = [l for l in mod.levels("quick") if l["name"] not in names] + levels
     if args.level:
         levels = [l for l in levels if l["name"] == args.level]
-    total_budget = args.budget or (float(os.environ.get("SYMX_BUDGET", 0)) or (170.0 if tier == "quick" else 1500.0))
+    total_budget = args.budget or (float(os.environ.get("SYMX_BUDGET", 0)) or (170.0 if tier == "quick" else 1200.0))
 
     print("[%s] tier=%s seed=%d levels=%s repo=%s" % (prop, tier, seed, [l["name"] for l in levels], REPO))
     st = selftests()
